@@ -331,4 +331,38 @@ def dtorAll : Nat → List Op
 
 def emptyWorld (k : Nat) : World := List.replicate k none
 
+/-! ### the template before the repair (kept for the regression examples of Properties/C04) -/
+
+/-- what the unrepaired `_fields_as_union.j2` emits for `@union { uint8 a; uint8[<=4] b }`: `destroy_current()`
+    numbers its branches by `loop.index0` of the loop *filtered* to the non-primitive fields, so the only branch
+    tests tag 0 (which is `a`) and destroys `b`; the default constructor starts from `tag_(0)`; the assignments have
+    no self-assignment guard. -/
+def pvBeforeFix : Prog :=
+  { memTy := [0, 1], nontrivial := [false, true], altMember := [0, 1], altTy := [0, 1],
+    destroy := [⟨0, 1, 1, 1⟩],
+    defCtor := ⟨false, [.setTagConst 0, .emplaceConst 0]⟩,
+    copyCtor := ⟨false, [.setTagNpos, .copyChain [⟨0, 0, 0, 0⟩, ⟨1, 1, 1, 1⟩], .setTagRhs]⟩,
+    moveCtor := ⟨false, [.setTagNpos, .moveChain [⟨0, 0, 0, 0⟩, ⟨1, 1, 1, 1⟩], .setTagRhs]⟩,
+    copyAssign := ⟨false, [.destroyCurrent, .copyChain [⟨0, 0, 0, 0⟩, ⟨1, 1, 1, 1⟩], .setTagRhs]⟩,
+    moveAssign := ⟨false, [.destroyCurrent, .moveChain [⟨0, 0, 0, 0⟩, ⟨1, 1, 1, 1⟩], .setTagRhs]⟩,
+    dtor := ⟨false, [.destroyCurrent]⟩,
+    emplace := ⟨false, [.destroyCurrent, .constructI, .setTagI]⟩ }
+
+/-- the same union with only the branch numbering of `destroy_current()` repaired: the default constructor still
+    runs `destroy_current()` with `tag_ == 0` before anything lives, and `a = a` still destroys its own source -/
+def vpIndexFixedOnly : Prog :=
+  { memTy := [0, 1], nontrivial := [true, false], altMember := [0, 1], altTy := [0, 1],
+    destroy := [⟨0, 0, 0, 0⟩],
+    defCtor := ⟨false, [.setTagConst 0, .emplaceConst 0]⟩,
+    copyCtor := ⟨false, [.setTagNpos, .copyChain [⟨0, 0, 0, 0⟩, ⟨1, 1, 1, 1⟩], .setTagRhs]⟩,
+    moveCtor := ⟨false, [.setTagNpos, .moveChain [⟨0, 0, 0, 0⟩, ⟨1, 1, 1, 1⟩], .setTagRhs]⟩,
+    copyAssign := ⟨false, [.destroyCurrent, .copyChain [⟨0, 0, 0, 0⟩, ⟨1, 1, 1, 1⟩], .setTagRhs]⟩,
+    moveAssign := ⟨false, [.destroyCurrent, .moveChain [⟨0, 0, 0, 0⟩, ⟨1, 1, 1, 1⟩], .setTagRhs]⟩,
+    dtor := ⟨false, [.destroyCurrent]⟩,
+    emplace := ⟨false, [.destroyCurrent, .constructI, .setTagI]⟩ }
+
+/-- a world in which slot 0 holds a correctly constructed object with alternative `k` active (the state after
+    `set_<k>()` on the real class when construction happened to be harmless) -/
+def worldWith (p : Prog) (k : Nat) : World := [some { tag := k, live := unitVec p.n k }]
+
 end NunavutVerif.Variant
